@@ -75,7 +75,8 @@ NATIVE = ['--native-file', os.path.join(CRASHSITE, 'native.ini')]
 CROSS = ['--cross-file', os.path.join(CRASHSITE, 'cross.ini')]
 # option values come from three sources in the machine-file histories: the command line (alpha, beta), the machine
 # file (werror, default_library, gamma; its alpha is overridden by -D) and project default_options (optimization)
-HIST: T.Dict[str, T.List[T.Tuple[str, T.List[str]]]] = {
+ENV_FIRST_SETUP = {'PKG_CONFIG_PATH': '/opt/c09-pkgconfig'}     # read once, stored only in coredata.dat
+HIST: T.Dict[str, T.List[tuple]] = {
     'fresh': [],
     'freshn': [],
     'freshx': [],
@@ -85,9 +86,20 @@ HIST: T.Dict[str, T.List[T.Tuple[str, T.List[str]]]] = {
     'n1': [('setup', SETUP_ARGS + NATIVE)],
     'n2': [('setup', SETUP_ARGS + NATIVE), ('configure', ['-Dwarning_level=2'])],
     'x1': [('setup', SETUP_ARGS + CROSS)],
+    # pkg_config_path comes from the environment of the first setup only: it lives in coredata.dat and nowhere else
+    'e2': [('setup', SETUP_ARGS, ENV_FIRST_SETUP), ('configure', ['-Dgamma=true'])],
 }
 SETUP_FLAVOUR = {'fresh': SETUP_ARGS, 'freshn': SETUP_ARGS + NATIVE, 'freshx': SETUP_ARGS + CROSS}
 MACHINE_FILE_HISTS = {'freshn', 'freshx', 'n1', 'n2', 'x1'}
+COREDATA_ONLY_HISTS = MACHINE_FILE_HISTS | {'e2'}
+# how the command ends when nobody kills it
+VARIANTS = {
+    'ok': 'succeeds',
+    'invalid': 'fails early: a -D value outside the choices',
+    'error': 'fails in the interpreter (error() guarded by an option), before coredata is dumped',
+    'noninja': 'fails late: the ninja backend finds no ninja after coredata was dumped; the except handler rolls back',
+    'postconf': 'fails last: a postconf script exits 1 after every record was written; the except handler rolls back',
+}
 CMD_ARGS = {
     'reconfigure': ['-Dbeta=z', '-Dalpha=a7'],
     'wipe': [],
@@ -100,23 +112,50 @@ class Scn(T.NamedTuple):
     cmd: str
     hist: str
     backend: str
+    variant: str = 'ok'
 
     @property
     def name(self) -> str:
-        return f'{self.cmd}/{self.hist}/{self.backend}'
+        return f'{self.cmd}/{self.hist}/{self.backend}' + ('' if self.variant == 'ok' else '/' + self.variant)
 
     @property
     def lean_name(self) -> str:
-        return f'sc_{self.cmd}_{self.hist}_{self.backend}'
+        return f'sc_{self.cmd}_{self.hist}_{self.backend}' + ('' if self.variant == 'ok' else '_' + self.variant)
 
     @property
     def args(self) -> T.List[str]:
-        return SETUP_FLAVOUR[self.hist] if self.cmd == 'setup' else CMD_ARGS[self.cmd]
+        base = SETUP_FLAVOUR[self.hist] if self.cmd == 'setup' else CMD_ARGS[self.cmd]
+        if self.variant == 'invalid':
+            return ['-Dbeta=q']
+        if self.variant == 'error':
+            return base + ['-Dboom=true']
+        return base
+
+    @property
+    def env_extra(self) -> T.Dict[str, str]:
+        if self.variant == 'noninja':
+            return {'PATH': '/usr/local/bin:/usr/bin:/bin'}
+        if self.variant == 'postconf':
+            return {'C09_POSTFAIL': '1'}
+        return {}
+
+    @property
+    def expected_rc(self) -> int:
+        return 0 if self.variant == 'ok' else 1
 
     @property
     def mf(self) -> bool:
-        """the directory is (being) configured with a machine file"""
-        return self.hist in MACHINE_FILE_HISTS
+        """some option values of the directory live only in coredata.dat (machine file, environment of the first setup)"""
+        return self.hist in COREDATA_ONLY_HISTS
+
+    def dvals(self) -> T.Dict[str, str]:
+        """option name -> value string of every -D on the command line"""
+        out = {}
+        for a in self.args:
+            if a.startswith('-D') and '=' in a:
+                k, v = a[2:].split('=', 1)
+                out[k] = v
+        return out
 
 
 ALL_SCENARIOS = [Scn('setup', 'fresh', b) for b in BACKENDS] + \
@@ -124,9 +163,16 @@ ALL_SCENARIOS = [Scn('setup', 'fresh', b) for b in BACKENDS] + \
     [Scn('setup', 'freshn', 'ninja'), Scn('setup', 'freshx', 'none'),
      Scn('reconfigure', 'n1', 'none'), Scn('reconfigure', 'n2', 'ninja'), Scn('reconfigure', 'x1', 'none'),
      Scn('wipe', 'n1', 'ninja'), Scn('wipe', 'n2', 'none'), Scn('wipe', 'x1', 'ninja'),
-     Scn('configure', 'n1', 'ninja'), Scn('configure', 'n2', 'none'), Scn('configure', 'x1', 'none')]
-QUICK_SCENARIOS = [Scn('setup', 'freshn', 'ninja'), Scn('reconfigure', 'h2', 'none'), Scn('wipe', 'n2', 'none'),
-                   Scn('configure', 'x1', 'none'), Scn('configure', 'n2', 'none'), Scn('reconfigure', 'n2', 'ninja')]
+     Scn('configure', 'n1', 'ninja'), Scn('configure', 'n2', 'none'), Scn('configure', 'x1', 'none'),
+     Scn('reconfigure', 'e2', 'none'), Scn('configure', 'e2', 'ninja'),
+     # commands x outcomes: the failure and rollback paths are crash-enumerated too
+     Scn('reconfigure', 'e2', 'ninja', 'noninja'), Scn('reconfigure', 'n2', 'ninja', 'noninja'),
+     Scn('reconfigure', 'e2', 'none', 'postconf'), Scn('reconfigure', 'e2', 'none', 'error'),
+     Scn('reconfigure', 'e2', 'none', 'invalid'), Scn('configure', 'e2', 'none', 'invalid'),
+     Scn('setup', 'fresh', 'ninja', 'noninja'), Scn('setup', 'freshn', 'ninja', 'postconf')]
+QUICK_SCENARIOS = [Scn('setup', 'freshn', 'ninja'), Scn('wipe', 'n2', 'none'), Scn('configure', 'x1', 'none'),
+                   Scn('reconfigure', 'n2', 'ninja'), Scn('reconfigure', 'e2', 'ninja', 'noninja'),
+                   Scn('reconfigure', 'e2', 'none', 'postconf'), Scn('configure', 'e2', 'none', 'invalid')]
 
 
 def meson_argv(cmd: str, args: T.List[str], bd: str, backend: str) -> T.List[str]:
@@ -143,7 +189,8 @@ def meson_argv(cmd: str, args: T.List[str], bd: str, backend: str) -> T.List[str
 
 
 def meson_env(tmpdir: str, bd: T.Optional[str] = None, log: T.Optional[str] = None,
-              at: T.Optional[int] = None, mode: str = 'before') -> T.Dict[str, str]:
+              at: T.Optional[int] = None, mode: str = 'before',
+              extra: T.Optional[T.Dict[str, str]] = None) -> T.Dict[str, str]:
     env = {
         'PATH': FAKEBIN + os.pathsep + '/usr/local/bin:/usr/bin:/bin',
         'PYTHONPATH': CRASHSITE + os.pathsep + common.REPO,
@@ -160,6 +207,8 @@ def meson_env(tmpdir: str, bd: T.Optional[str] = None, log: T.Optional[str] = No
         if at is not None:
             env['MESON_VERIF_CRASH_AT'] = str(at)
             env['MESON_VERIF_CRASH_MODE'] = mode
+    if extra:
+        env.update(extra)
     return env
 
 
@@ -410,8 +459,10 @@ class Slot:
         dst = os.path.join(self.dir, f'pre_{hist}_{backend}')
         common.rmtree(self.bd)
         common.rmtree(dst)
-        for cmd, args in HIST[hist]:
-            rc, out = run_proc(meson_argv(cmd, args, self.bd, backend), meson_env(self.tmp))
+        for step in HIST[hist]:
+            cmd, args = step[0], step[1]
+            rc, out = run_proc(meson_argv(cmd, args, self.bd, backend),
+                               meson_env(self.tmp, extra=step[2] if len(step) > 2 else None))
             if rc != 0:
                 raise HistoryFailed(f'history {hist}/{backend}: `{cmd} {" ".join(args)}` exited {rc}: {out[-600:]}')
         if os.path.isdir(self.bd):
@@ -489,7 +540,7 @@ def record(slot: Slot, sc: Scn) -> dict:
     if os.path.exists(slot.log):
         os.unlink(slot.log)
     rc, out = run_proc(meson_argv(sc.cmd, sc.args, slot.bd, sc.backend),
-                       meson_env(slot.tmp, slot.bd, slot.log))
+                       meson_env(slot.tmp, slot.bd, slot.log, extra=sc.env_extra))
     raw = parse_log(slot.log)
     post_obs = observe(slot.bd)
     post_vals = coredata_values(os.path.join(slot.bd, 'meson-private', 'coredata.dat')) or {}
@@ -551,13 +602,13 @@ def gen_tables(ctx: Ctx) -> None:
     names = []
     for sc in ALL_SCENARIOS:
         rec = _RECORDED[sc]
-        if rec['rc'] != 0:
-            raise RuntimeError(f'reference run of {sc.name} exited {rec["rc"]}: {rec["out"][-300:]}')
+        if rec['rc'] != sc.expected_rc:
+            raise RuntimeError(f'reference run of {sc.name} exited {rec["rc"]} (expected {sc.expected_rc}): {rec["out"][-300:]}')
         I, st0, effs, _start = scenario_model_inputs(rec)
         init = ', '.join(f'({I(p)}, {lean_state(s)})' for p, s in sorted(st0.items(), key=lambda kv: I(kv[0])))
         tr = ',\n    '.join(lean_effect(e, I) for e in effs)
         lines.append(f'def {sc.lean_name} : Scenario :=')
-        lines.append(f'  {{ name := "{sc.name}", cmd := .{sc.cmd}, machineFile := {"true" if sc.mf else "false"},')
+        lines.append(f'  {{ name := "{sc.name}", cmd := .{sc.cmd}, coredataOnly := {"true" if sc.mf else "false"},')
         lines.append(f'    init := [{init}],')
         lines.append(f'    trace := [\n    {tr}] }}')
         lines.append('')
@@ -587,7 +638,8 @@ def crash_point(slot: Slot, sc: Scn, k: int, mode: str) -> dict:
     if os.path.exists(slot.log):
         os.unlink(slot.log)
     argv = meson_argv(sc.cmd, sc.args, slot.bd, sc.backend)
-    rc, out = run_proc(argv, meson_env(slot.tmp, slot.bd, slot.log, k, 'torn' if mode == 't' else 'before'))
+    rc, out = run_proc(argv, meson_env(slot.tmp, slot.bd, slot.log, k, 'torn' if mode == 't' else 'before',
+                                       extra=sc.env_extra))
     prefix = parse_log(slot.log)
     obs = observe(slot.bd)
     crashed_vals = coredata_values(os.path.join(slot.bd, 'meson-private', 'coredata.dat'))
@@ -675,11 +727,21 @@ def oracle(ctx: Ctx, rec: dict, r: dict) -> None:
                       f'{bad} is unreadable after the follow-up setup succeeded', case)
         return
     pre, post = rec['pre_vals'], rec['post_vals']
+    if sc.cmd == 'setup' and sc.variant != 'ok':
+        # a first setup that fails leaves nothing behind; "the value the command was setting" is what the same
+        # command line yields when it gets through
+        twin = _RECORDED.get(Scn(sc.cmd, sc.hist, sc.backend))
+        post = twin['post_vals'] if twin else {}
     if sc.cmd == 'wipe':
         post = pre        # --wipe sets nothing: it must reproduce the options the directory had
     wrong = {}
+    dvals = sc.dvals()
     for name, v in vals.items():
         allowed = [d[name] for d in (pre, post) if name in d]
+        # the value the command was setting (a failing command never gets to a state that shows it)
+        setting = dvals.get(name.lstrip(':'))
+        if setting is not None and (str(v) == setting or (isinstance(v, bool) and str(v).lower() == setting)):
+            continue
         if v not in allowed:
             wrong[name] = {'got': v, 'before': pre.get(name, '<unset>'), 'command_sets': post.get(name, '<unset>')}
     missing = [n for n in post if n not in vals and n in pre]
@@ -711,6 +773,9 @@ def model_lines(rec: dict, r: dict, I: Interner, st0: T.Dict[str, str]) -> T.Tup
 
 def obs_gen(rec: dict, rel: str, o: str) -> str:
     """generation of an observed readable file: new if it equals what the command writes, else old, else older"""
+    failing = rec['scn'].variant != 'ok'
+    if failing and o == rec['pre_obs'].get(rel):
+        return 'o1'       # a failing command ends where it started (post == pre): that content is the old one
     if o == rec['post_obs'].get(rel):
         return 'o2'
     if o == rec['pre_obs'].get(rel):
@@ -722,6 +787,8 @@ def obs_gen(rec: dict, rel: str, o: str) -> str:
             return 'o2'
         if o == rec['pre_obs'].get('meson-private/coredata.dat.prev'):
             return 'o0'
+    if failing:
+        return 'o2'       # written by the command before it failed (the oracle judges the values themselves)
     # a readable state file holding neither the old nor the new content: a generation nobody asked for
     return 'o1' if rel not in ('meson-private/coredata.dat', 'meson-private/cmd_line.txt') else 'o0'
 
@@ -734,6 +801,9 @@ def refines(rec: dict, rel: str, model_st: str, o: str) -> bool:
         return o == 'd'
     if o in ('a', 'd'):
         return False
+    if rec['scn'].variant != 'ok' and model_st != 't':
+        # a failing command writes two different contents (its own, then the rolled-back one): compare readability
+        return o != 't'
     if model_st == 't':
         # any prefix of the new content, the complete content included
         return o == 't' or o == rec['post_obs'].get(rel) or rel in ('build.ninja',)
@@ -747,15 +817,19 @@ def refines(rec: dict, rel: str, model_st: str, o: str) -> bool:
     return o == want
 
 
-def expected_values(rec: dict, verdict: str) -> T.Optional[T.Dict[str, T.Any]]:
+def expected_values(rec: dict, verdict: str, r: dict) -> T.Optional[T.Dict[str, T.Any]]:
     sc: Scn = rec['scn']
+    if verdict.startswith('usable:cd:'):
+        return r['crashed_vals']          # a loadable coredata.dat is used as it is
     if verdict == 'usable:fresh':
-        return rec['post_vals'] if sc.cmd == 'setup' else _FRESH['vals']
+        return rec['post_vals'] if sc.cmd == 'setup' and sc.variant == 'ok' else (None if sc.cmd == 'setup' else _FRESH['vals'])
     g = verdict.rsplit(':', 1)[1]
+    if sc.variant != 'ok' and g != '1':
+        return None                       # content written by a command that then failed: no reference snapshot
     if verdict.startswith('usable:clo:') and sc.mf:
-        # -D options of cmd_line.txt re-applied, machine files listed in [properties] not re-read
+        # -D options of cmd_line.txt re-applied, values that live only in coredata.dat not reproduced
         if sc.cmd == 'setup':
-            return rec['post_vals']       # the recovery command line names the machine file again
+            return rec['post_vals'] if sc.variant == 'ok' else None
         return rec.get('nomf_vals') if g == '1' else None
     return {'0': rec['older_vals'], '1': rec['pre_vals'], '2': rec['post_vals']}.get(g)
 
@@ -784,7 +858,7 @@ def evaluate(ctx: Ctx, rec: dict, results: T.List[dict]) -> None:
         k = r['k']
         kind = rec['raw'][k][0] if k < n_raw else 'end'
         ctx.tag('killed-at:' + kind)
-        expect_rc = 137 if k < n_raw else 0
+        expect_rc = 137 if k < n_raw else rec['rc']
         if r['crash_rc'] != expect_rc:
             ctx.disagreement({'scenario': sc.name, 'k': k, 'mode': r['mode'],
                               'what': f'killed command exited {r["crash_rc"]}, expected {expect_rc}'})
@@ -817,7 +891,7 @@ def evaluate(ctx: Ctx, rec: dict, results: T.List[dict]) -> None:
             ctx.disagreement({'scenario': sc.name, 'k': k, 'mode': r['mode'], 'what': 'recovery verdict',
                               'model': vb, 'real': rc_, 'observed': r['obs'], 'output': r['rout'][-300:]})
         elif rc_ == 'usable':
-            exp = expected_values(rec, vb)
+            exp = expected_values(rec, vb, r)
             if exp is not None and r['after_vals'] is not None and exp != r['after_vals']:
                 diff = {n: (exp.get(n), r['after_vals'].get(n)) for n in set(exp) | set(r['after_vals'])
                         if exp.get(n) != r['after_vals'].get(n)}
@@ -861,10 +935,14 @@ def run_scenarios(ctx: Ctx, scenarios: T.List[Scn]) -> None:
     futs: T.List[T.Tuple[Scn, concurrent.futures.Future]] = []
     for sc in scenarios:
         rec = _RECORDED[sc]
-        if rec['rc'] != 0:
-            ctx.violation(f'{sc.cmd}:command-fails', f'`meson {sc.cmd}` itself fails on history {sc.hist}',
-                          {'scenario': sc.name, 'rc': rec['rc'], 'output': rec['out']})
+        if rec['rc'] != sc.expected_rc:
+            if sc.variant == 'ok':
+                ctx.violation(f'{sc.cmd}:command-fails', f'`meson {sc.cmd}` itself fails on history {sc.hist}',
+                              {'scenario': sc.name, 'rc': rec['rc'], 'output': rec['out']})
+            else:
+                ctx.notes.append(f'{sc.name}: reference run exited {rec["rc"]} instead of failing cleanly; scenario skipped')
             continue
+        ctx.tag('outcome:' + sc.variant)
         if sc.cmd == 'wipe' and rec['post_vals'] != rec['pre_vals']:
             diff = {n: (rec['pre_vals'].get(n), rec['post_vals'].get(n)) for n in set(rec['pre_vals']) | set(rec['post_vals'])
                     if rec['pre_vals'].get(n) != rec['post_vals'].get(n)}
